@@ -104,42 +104,42 @@ func (c *ClientConn) HeadersDelivered(i, n int) bool {
 }
 
 type World struct {
-	Sim     *Sim
-	Sys     *gtier.System
-	Conns   []*ClientConn
-	reqs    []*Request
-	Cycles  int // start/stop cycles the operator performs
-	StopAt  []int // per cycle: scheduler step at which stop is requested (-1: when all client work is done)
+	Sim    *Sim
+	Sys    *gtier.System
+	Conns  []*ClientConn
+	reqs   []*Request
+	Cycles int   // start/stop cycles the operator performs
+	StopAt []int // per cycle: scheduler step at which stop is requested (-1: when all client work is done)
 	// StopAfterBegun >= 0 (first cycle only): stop is requested this many steps after the first
 	// request's header block reached the server, i.e. while its handler is running.
 	StopAfterBegun int
 	begunStep      int
 	// operator state (written by the operator goroutine between yields, read by the scheduler at quiescence)
 	op struct {
-		cycle        int
-		running      atomic.Bool // Run has returned in this cycle
-		stopSignal   chan struct{}
-		stopSent     bool
-		stopStep     int
-		awaitDone    atomic.Bool
-		awaitAtStep  int
-		boundAfter   []string // addresses still bound when AwaitStop returned (per cycle, appended)
-		rebindErr    []string
-		finished     atomic.Bool
-		cyclesDone   atomic.Int32
-		stopFakeTime time.Duration
-		awaitFake    time.Duration
+		cycle          int
+		running        atomic.Bool // Run has returned in this cycle
+		stopSignal     chan struct{}
+		stopSent       bool
+		stopStep       int
+		awaitDone      atomic.Bool
+		awaitAtStep    int
+		boundAfter     []string // addresses still bound when AwaitStop returned (per cycle, appended)
+		rebindErr      []string
+		finished       atomic.Bool
+		cyclesDone     atomic.Int32
+		stopFakeTime   time.Duration
+		awaitFake      time.Duration
 		handlersAtStop []string
 	}
 	// WaitBound: clients dial only once their address is bound (a client that waits for the
 	// service to come up); without it a dial may be refused, which the C14 oracle treats as legal.
-	WaitBound    bool
-	IdleRounds   int
-	Stuck        bool
-	StuckWhy     string
-	RefusedOK    bool
-	Scrapes      []Scrape
-	LateDialOK   bool
+	WaitBound  bool
+	IdleRounds int
+	Stuck      bool
+	StuckWhy   string
+	RefusedOK  bool
+	Scrapes    []Scrape
+	LateDialOK bool
 }
 
 type Scrape struct {
